@@ -177,6 +177,8 @@ func (l *lexer) setDelimiters(leftDelim, rightDelim string) {
 	if rightDelim != "" {
 		l.rightDelim = rightDelim
 	}
+	// the right trim marker belongs to the right delimiter in use
+	l.trimRightDelim = rightTrimMarker + l.rightDelim
 }
 
 func (l *lexer) setCommentDelimiters(leftDelim, rightDelim string) {
